@@ -1207,7 +1207,44 @@ func runC17(c *Checker) {
 		}
 		c.decide(okk, "CODEC-SIB", "NewPassphraseEntropy|normalises by the round trip", fn.Pos(), "returns MnemonicToEntropy(EntropyToMnemonic(random))", "the generated entropy is not normalised through the mnemonic: the unused low bits make server and client derive different secrets")
 	}
-	c.floor("CODEC-SIB", 8)
+	// the phrase a user types in reaches the decoder word by word: it is cut at every separator
+	// (strings.Split / strings.Fields over the whole phrase, no bounded SplitN that leaves a tail
+	// glued to the last word - an unknown word silently decodes as index 0) and the pieces are copied
+	// into the word array in order
+	if fn := w.Func("mailbox.NewClientWebsocketConn"); fn != nil && len(fn.Params) >= 2 {
+		phrase := ssa.Value(fn.Params[1])
+		var split *ssa.Call
+		bad := ""
+		allInstrs(fn, func(in ssa.Instruction) {
+			call, ok := in.(*ssa.Call)
+			if !ok {
+				return
+			}
+			sc := call.Common().StaticCallee()
+			if sc == nil || sc.Pkg == nil || sc.Pkg.Pkg.Path() != "strings" || len(call.Common().Args) == 0 || call.Common().Args[0] != phrase {
+				return
+			}
+			switch sc.Name() {
+			case "Split", "Fields":
+				split = call
+			default:
+				bad = "strings." + sc.Name()
+			}
+		})
+		copied := false
+		if split != nil {
+			for _, r := range *split.Referrers() {
+				if cp, ok := r.(*ssa.Call); ok && isBuiltinCall(cp, "copy") && cp.Call.Args[1] == ssa.Value(split) {
+					copied = true
+				}
+			}
+		}
+		c.decide(split != nil && bad == "" && copied, "CODEC-SIB", "NewClientWebsocketConn|the pairing phrase is cut at every separator", fn.Pos(), "copy(words[:], strings.Split(phrase, sep))",
+			"the pairing phrase is not split into words at every separator ("+bad+"): text after the last word stays glued to it, decodes as word index 0, and the client derives another SID than the server")
+	} else {
+		c.anchorFail("mailbox.NewClientWebsocketConn")
+	}
+	c.floor("CODEC-SIB", 9)
 
 	// ---- SIDDIR ----
 	getSID := mboxFunc(c, "mailbox.GetSID")
